@@ -93,13 +93,26 @@ Proof.
   apply (Hs w Hw j0 Hj0).
 Qed.
 
+Lemma find_var_in s k v : find_var s k = Some v -> In v (dvars s) /\ vkey v = k.
+Proof. unfold find_var. intros H. apply find_some in H. destruct H as [H1 H2]. apply String.eqb_eq in H2. auto. Qed.
+Lemma delitem_keeps_other k s v : In v (dvars s) -> vkey v <> k -> In v (dvars (fst (ds_delitem k s))).
+Proof.
+  intros Hv Hk. unfold ds_delitem. destruct (find_var s k); [|exact Hv]. simpl. apply filter_In. split; [exact Hv|].
+  destruct (String.eqb_spec (vkey v) k); [contradiction | reflexivity].
+Qed.
 Theorem rename_key_shared o n s : Shared s -> Shared (fst (ds_rename_key o n s)).
 Proof.
   intros Hs. unfold ds_rename_key. destruct (find_var s o) as [v|] eqn:Ef; [|exact Hs].
-  destruct (String.eqb o n); [exact Hs|]. simpl. intros w Hw id Hid. simpl in Hw.
+  destruct (String.eqb_spec o n) as [E|NE]; [exact Hs|]. simpl.
+  set (s1 := match find_var s n with Some _ => fst (ds_delitem n s) | None => s end).
+  assert (Hs1 : Shared s1) by (unfold s1; destruct (find_var s n); [apply delitem_shared; exact Hs | exact Hs]).
+  destruct (find_var_in _ _ _ Ef) as [Hvin Hvk].
+  assert (Hv1 : In v (dvars s1)).
+  { unfold s1. destruct (find_var s n); [apply delitem_keeps_other; [exact Hvin | rewrite Hvk; exact NE] | exact Hvin]. }
+  intros w Hw id Hid. simpl in Hw.
   apply filter_In in Hw. destruct Hw as [Hw _]. destruct (put_var_in _ _ _ Hw) as [->|Hold].
-  - simpl in Hid. unfold find_var in Ef. apply find_some in Ef. apply (Hs v (proj1 Ef) id Hid).
-  - apply (Hs w Hold id Hid).
+  - simpl in Hid. apply (Hs1 v Hv1 id Hid).
+  - apply (Hs1 w Hold id Hid).
 Qed.
 
 (* sharing: the variables of the result are variables of s under another key *)
@@ -563,6 +576,10 @@ Proof.
   unfold ds_rename_key in *. destruct (find_var s o) as [v|] eqn:Ef; [|exact Hi].
   destruct (String.eqb_spec o n) as [->|Hne]; [exact Hi|]. simpl in *.
   destruct Hn as [->|Hfresh]; [contradiction|].
+  assert (Hnone : find_var s n = None).
+  { unfold find_var. destruct (find _ (dvars s)) as [w|] eqn:Ew; [|reflexivity]. exfalso. apply Hfresh.
+    apply find_some in Ew. destruct Ew as [Hw1 Hw2]. apply String.eqb_eq in Hw2. unfold ds_keys. rewrite <- Hw2. apply in_map. exact Hw1. }
+  rewrite Hnone in *.
   assert (Hv : In v (dvars s) /\ vkey v = o).
   { unfold find_var in Ef. apply find_some in Ef. destruct Ef as [H1 H2]. apply String.eqb_eq in H2. auto. }
   destruct Hv as [Hvin Hvk].
